@@ -628,6 +628,8 @@ def verdicts(chk, cases, res, defs):
 def run(chk):
     chk.build(["theories/Corr/C19.vo", "theories/Props/C19.vo"])
     chk.props("theories/Props/C19.v", THEOREMS)
+    if chk.tier == "thorough":
+        chk.coqchk(["Ford.Props.C19"])
     rng = chk.rng
     quick = chk.tier == "quick"
     timing = chk.extra.setdefault("timing_s", {})
@@ -668,7 +670,7 @@ def run(chk):
         for sc in scenarios():
             want = (not sc["refuse"]) and sc["name"] in chosen
             # quick: 36 of the ~150 mutating calls; thorough: every call for the first four, then 60
-            budget = (50 if quick else (10 ** 6 if done_fault < 4 else 60)) if want else 0
+            budget = (40 if quick else (10 ** 6 if done_fault < 4 else 60)) if want else 0
             res = run_sc(sc, faults=budget)
             if want and res and res.get("faulted"):
                 done_fault += 1
